@@ -171,7 +171,9 @@ class Fn:
         ar=max([GENARITY.get(s.path,0)]+[i+1 for i in pos])
         s.gen=[pos.get(i,f'g_{i}') for i in range(ar)]
         GENCACHE[s.path]=s.gen
-        if allg-set(s.gen)-{'N'} or ('N' in allg and 'to_f64' in allt and 'ToPrimitive' in allt):
+        s.is_sample = s.path.endswith('::sample') and (allg-set(s.gen)-{'N'})=={'R'}
+        s.rng_params=[]
+        if not s.is_sample and (allg-set(s.gen)-{'N'} or ('N' in allg and 'to_f64' in allt and 'ToPrimitive' in allt)):
             raise Unsupported('generic type parameters')
         if s.targs: GENCACHE[s.path+'@@'+'|'.join(s.targs)]=[]
     def fresh(s,p='t'): s.tmp+=1; return f'{p}_{s.tmp}'
@@ -270,6 +272,7 @@ class Fn:
         if h.startswith('Call'):
             p,_=s.callee(k)
             if p is None: return False
+            if p.endswith('::rng::Rng::gen_range'): return True
             if p.startswith('core[') and ('::panicking::' in p or p.endswith('::Iterator::next') or p.endswith('::mem::swap')): return False
             if p in s.sigs and s.sigs[p].mutrefs: return False
             if any(is_mutref(s.unwrap(x)[0]) or s.unwrap(x)[1].text.startswith('Borrow') and 'Mut' in kid(s.unwrap(x)[1],'borrow_kind:').text for x in kid(k,'args:').kids): return False
@@ -365,6 +368,12 @@ class Fn:
                 return f'(← Rs.{op.lower()}_{lt} {a} {b})'
             if op in ('Shl','Shr'):
                 return f'(← Rs.{op.lower()}_{lt} {a} (Rs.toInt_{rt} {b}))'
+        if h.startswith('Call') and (s.callee(k)[0] or '').endswith('::rng::Rng::gen_range'):
+            # `rng.gen_range(lo..hi)`: the drawn value becomes an extra INPUT of the model, with the contract lo <= r < hi
+            rk=s.unwrap(kid(k,'args:').kids[1])[1]; fs=s.adt_fields(rk)
+            lo=s.term(fs[0].kids[0]); hi=s.term(fs[1].kids[0])
+            nm=f'rng_{len(s.rng_params)+1}'; s.rng_params.append((nm,LEANTY[t]))
+            return f'(← Rs.gen_range_{t} {nm} {lo} {hi})'
         if h.startswith('Call'):
             p,gargs=s.callee(k); args=[s.term(x) for x in kid(k,'args:').kids]; s.cur_gargs=gargs
             argtys=[prim(s.unwrap(x)[0]) for x in kid(k,'args:').kids]
@@ -832,6 +841,11 @@ class Fn:
         params=kid(s.body,'params:'); body=kid(s.body,'body:').kids[0]
         ps=[]; s.paramnames=[]
         for p in params.kids:
+            if s.is_sample and ('R/#' in kid(p,'ty:').text or 'distributions::Standard' in kid(p,'ty:').text):
+                b=_find_binding(p)
+                if b is not None:
+                    nm_=kid(b,'name:').text.split('"')[1]; s.vars[s.vid(kid(b,'var:').text)]=nm_+'_unused'
+                continue
             pat=kid(p,'param:')
             if pat is None or not pat.kids: raise Unsupported('param')
             bk=kid(pat.kids[0],'kind:'); b=bk.kids[0] if bk.kids else Node(bk.text[6:],0)
@@ -862,6 +876,7 @@ class Fn:
         if s.sig.is_const:
             hdr=f'def {s.name} {gp}: {lean_ty(s.sig.ret)} := Rs.constVal do'
         else:
+            ps=ps+list(s.rng_params)
             hdr=f'def {s.name} {gp}'+' '.join(f'({ln} : {t})' for ln,t in ps)+f' : Rs.M {s.rettype()} := do'
         return '\n'.join(s.loops+[hdr]+s.lines)
 
